@@ -573,10 +573,18 @@ func (ctx *Context) evaluate() {
 			}
 
 			step := IntType(1)
-			length := _b - _a
-			if length < 0 {
+			var length IntType
+			if _b >= _a {
+				length = _b - _a
+			} else {
 				step = -1
-				length = -length
+				length = _a - _b
+			}
+
+			// 相减溢出时 length 为负数，同样视为过长
+			if length < 0 || length > 511 {
+				ctx.Error = errors.New("不能一次性创建过长的数组")
+				return
 			}
 			length += 1
 
